@@ -111,6 +111,29 @@ theorem unit_never_overwritten {okf : Nat} {s s' : State} {a : Action} (h : step
     mapped s' app i = some p ∨ mapped s' app i = none :=
   step_noOverwrite h app i p hp
 
+/-- Faults at the environment boundary: a `create_epr` / `recv_epr` whose call into the network stack
+raised (`get_purpose_id`, or `put` — the request was never accepted by the stack) leaves the WHOLE state
+as it was: no queue gains a request, nothing is consumed, no history entry. Issuing a request is atomic
+with the stack's acceptance. (The raising subroutine stays registered: `execute_subroutine` does not
+reach `_clear_subroutine`.) -/
+theorem rejected_issue_unchanged {okf : Nat} {s s' : State} {sub : Nat}
+    (h : step okf s (.rejected sub) = some s') : s' = s := by
+  simp only [step] at h
+  obtain ⟨_, _, _, _, hf⟩ := withApp_some h
+  injection hf with hf
+  exact hf.symm
+
+/-- consequently every request in a queue of a reachable state was accepted: it is one of the issued
+requests (the ghost list only `create` / `recv` extend) — a rejected instruction contributes none. -/
+theorem queued_requests_were_issued {okf : Nat} {node : Int} {s : State} (h : Reach okf node s)
+    (hpos : PosReqs s) (κ : Key) : ∀ r ∈ getQ s.queues κ, ∃ r0 ∈ s.issued, r0.id = r.id ∧ r0.key = κ := by
+  obtain ⟨fin, hiss, _, _, _⟩ := consumed_by_oldest_in_order h hpos κ
+  intro r hr
+  have : reset r ∈ issuedFor s κ := by
+    rw [hiss]; exact List.mem_append_right _ (List.mem_map_of_mem hr)
+  simp only [issuedFor, issuedForL, List.mem_filter, decide_eq_true_eq] at this
+  exact ⟨reset r, this.1, rfl, this.2⟩
+
 /-- (vi) a wait instruction completes (`waitOk = some true`) only if the awaited entries are defined:
 all entries of the slice (wait_all), at least one (wait_any), the entry (wait_single). -/
 theorem wait_sound {s : State} {sub : Nat} {addr : Int} {lo hi : Nat} :
